@@ -37,3 +37,12 @@ Definition pgate_close (eps : Q) (g h : pgate Q) : bool :=
   | PEnt e c t, PEnt e' c' t' => ent_eqb e e' && Nat.eqb c c' && Nat.eqb t t'
   | _, _ => false
   end.
+
+(* per-gate inverse / relabelling on the rotation IR (mirrors IrPropsRot.ginv, TopDownModel.relabel_p) *)
+Definition pinv (g : pgate Q) : pgate Q := match g with PRot r x q => PRot r (- x) q | PEnt e c t => PEnt e c t end.
+Definition pinv_list (c : list (pgate Q)) : list (pgate Q) := rev (map pinv c).
+Definition pwfb (g : pgate Q) : bool := match g with PRot _ _ _ => true | PEnt _ c t => negb (Nat.eqb c t) end.
+Definition pmentions (q : nat) (g : pgate Q) : bool :=
+  match g with PRot _ _ t => Nat.eqb q t | PEnt _ c t => Nat.eqb q c || Nat.eqb q t end.
+Definition prelabel (l : list nat) (g : pgate Q) : pgate Q :=
+  match g with PRot r x q => PRot r x (nth q l 0%nat) | PEnt e c t => PEnt e (nth c l 0%nat) (nth t l 0%nat) end.
